@@ -1,5 +1,6 @@
 import KinModel.Drv.Util
 import KinModel.Internalize
+import KinModel.Lemmas.C16Heaps
 open Lean
 namespace KinModel.Drv.C16
 open KinModel.Drv KinModel.Internalize
@@ -41,6 +42,34 @@ def parseHeap (j : Json) : Heap :=
     comps := kinds.flatMap fun k => (getArr cj k).map fun e => (k.toList, getL e "n", getNat e "c"),
     paths := getNats j "paths" }
 
+/-- the heaps the witness / regression theorems of Props/C16.lean are about, by the tag of their corpus case: the reply
+tells whether the heap extracted from the real loader for that case still IS that heap -/
+def twins : List (String × Heap) :=
+  [("f17-underscore-vs-slash", Heaps.hCollision),
+   ("self-response", Heaps.hSelfResponse),
+   ("comp-link-external", Heaps.hSelfLink),
+   ("flag-dropped-inline-path-item-of-external-callback", Heaps.hFlagDropped),
+   ("ext-value-first-reached-internally", Heaps.hFirstReachedInternally),
+   ("param-example-external", Heaps.hParamExample),
+   ("header-example-in-imported-file", Heaps.hHeaderExampleImported),
+   ("discriminator-mapping-external", Heaps.hDiscriminator),
+   ("inline-callback-cycle", Heaps.hInlineCycle),
+   ("loader-unresolved-below-path-item-element-ref", Heaps.hLoaderUnresolved),
+   ("f41-encoding-header-ref", Heaps.hEncHeaderInternal),
+   ("enc-header-external", Heaps.hEncHeaderExternal),
+   ("wrongrefpath-link-empty-name", Heaps.hLinkWholeFile),
+   ("callback-cycle", Heaps.hCallbackCycle),
+   ("callback-cycle-via-paths", Heaps.hCallbackCycleViaPaths),
+   ("m1-shape-whole-and-element", Heaps.hWholeAndElement),
+   ("shared-header-twice", Heaps.hSharedHeader),
+   ("fix18-absolute-root-backref", Heaps.hAbsoluteBackref),
+   ("path-item-chain", Heaps.hPathItemChain)]
+
+def twinOf (j : Json) (h : Heap) : Json :=
+  match twins.find? (·.1 == getStr j "tag") with
+  | some (_, t) => Json.bool (decide (t = h))
+  | none => Json.null
+
 def strsOf (l : List (List Char)) : Json := jstrs (l.map String.ofList)
 
 /-- request: {root, files, heap}; only `heap` is read by the model -/
@@ -67,7 +96,7 @@ def handle (j : Json) : Json :=
       ("model", jobj [("outcome", Json.str "done"), ("refs", strsOf s.refs.toList), ("pirefs", strsOf s.pirefs.toList),
                       ("comps", jobj (kinds.map fun k => (k, strsOf ((compsOf s k.toList).map (·.1))))),
                       ("specok", Json.bool ok), ("ambiguous", Json.bool s.ambiguous),
-                      ("cyclic", Json.bool (InlinedCycle h s))]),
+                      ("cyclic", Json.bool (InlinedCycle h s)), ("twin", twinOf j h)]),
       ("spec", jobj [("ok", Json.bool true)]),
       ("excl", jstrs excl),
       ("branches", jstrs (s.flags ++ (if ok then [] else ["spec.fails"])))]
